@@ -4,7 +4,7 @@ usage: probe.py <config real|shim> <inject: src=harness,...> <timeout> <jobs> [-
 """
 import json, os, sys, time
 sys.path.insert(0, os.path.dirname(os.path.dirname(os.path.abspath(__file__))))
-from vlib import scratch, kani, gen_range, gen_ae, gen_serve, gen_precond, gen_chunker
+from vlib import scratch, kani, gen_range, gen_ae, gen_serve, gen_precond, gen_chunker, gen_mp
 
 def main():
     a = sys.argv[1:]
@@ -27,6 +27,7 @@ def main():
         gen_serve.generate(tier, os.path.join(hdir, "serve_gen.rs"), os.path.join(hdir, "serve_meta.json"))
         gen_precond.generate(tier, os.path.join(hdir, "precond_gen.rs"), os.path.join(hdir, "precond_meta.json"))
         gen_chunker.generate(tier, os.path.join(hdir, "chunker_gen.rs"), os.path.join(hdir, "chunker_meta.json"))
+        gen_mp.generate(tier, os.path.join(hdir, "mp_gen.rs"), os.path.join(hdir, "mp_meta.json"))
     ws = scratch.Workspace(config, inject, features=feats, std_model=std, gen=gen, keep=bool(os.environ.get("KEEP")))
     logdir = os.path.join("/var/tmp", "probe-logs-%d" % os.getpid())
     os.makedirs(logdir, exist_ok=True)
